@@ -47,6 +47,103 @@ def setup(ctx):
     _st["ctx"] = ctx
     _st["n"] = 0
     os.makedirs(ctx.scratch, exist_ok=True)
+    _st["iso"] = None
+    params = getattr(ctx, "cfg", {}).get("params", {})
+    if ctx.interp and params.get("isolated_twin", True) and hasattr(os, "fork"):
+        _st["iso"] = _start_pristine_server()
+
+
+# ----------------------------------------------------------------------------- the isolated twin
+# "The same output as a single call" must also hold against process-global state (a module-level cache that one
+# call fills and a later call -- of any estimator -- reads).  A twin living in the same interpreter shares that
+# state.  So a *pristine server* is forked at set-up, before any run; for every request it forks a grandchild
+# that performs fit + one transform from scratch in an interpreter whose module state is exactly the post-import
+# state, and sends the result back.  interp mode only (no compiled state to re-create in every grandchild).
+def _start_pristine_server():
+    import multiprocessing as mp
+    import pickle
+    parent, child = mp.Pipe()
+    pid = os.fork()
+    if pid != 0:
+        child.close()
+        return {"conn": parent, "pid": pid}
+    # ---- server (never returns)
+    parent.close()
+    try:
+        while True:
+            try:
+                req = child.recv_bytes()
+            except EOFError:
+                break
+            r, w = os.pipe()
+            gpid = os.fork()
+            if gpid == 0:
+                os.close(r)
+                try:
+                    out = _isolated_single_call(pickle.loads(req))
+                except BaseException as e:  # noqa: BLE001
+                    out = ("harness", repr(e))
+                try:
+                    data = pickle.dumps(out)
+                except Exception as e:
+                    data = pickle.dumps(("harness", "unpicklable result: " + repr(e)))
+                with os.fdopen(w, "wb") as f:
+                    f.write(data)
+                os._exit(0)
+            os.close(w)
+            with os.fdopen(r, "rb") as f:
+                data = f.read()
+            os.waitpid(gpid, 0)
+            child.send_bytes(data if data else pickle.dumps(("harness", "grandchild died")))
+    finally:
+        os._exit(0)
+
+
+def _isolated_single_call(req):
+    import tempfile
+    import warnings
+    warnings.filterwarnings("ignore")
+    case, train_ids, ids, method, alt, sandbox = req
+    os.makedirs(sandbox, exist_ok=True)
+    tempfile.tempdir = sandbox
+    case.sandbox = sandbox
+    np.random.seed(424242)
+    est, _ = case.new_estimator()
+    X, kw = case.build(train_ids, for_fit=True)
+    kw.update(case.fit_extra(train_ids))
+    case._n_for_call = len(train_ids)
+    try:
+        case.call_fit(est, method, X, kw)
+    except Exception as e:
+        return ("fit-exc", type(e).__name__)
+    X, kw = case.build(ids, alt_vectors=True) if alt else case.build(ids)
+    case._n_for_call = len(ids)
+    try:
+        out = case.call_transform(est, X, kw)
+    except Exception as e:
+        return ("exc", type(e).__name__)
+    return ("ok", case.rows(out, len(ids)))
+
+
+def _ask_isolated(case, train_ids, ids, method, alt):
+    import pickle
+    iso = _st.get("iso")
+    if iso is None:
+        return None
+    sandbox = os.path.join(_st["ctx"].scratch, f"iso-{os.getpid()}")
+    saved = getattr(case, "sandbox", None)
+    try:
+        payload = pickle.dumps((case, list(train_ids), list(ids), method, bool(alt), sandbox))
+    except Exception:
+        return None            # a case that cannot be shipped (not expected): simply no isolated oracle for it
+    finally:
+        case.sandbox = saved
+    iso["conn"].send_bytes(payload)
+    if not iso["conn"].poll(120):
+        raise HarnessError("pristine twin server did not answer within 120 s")
+    res = pickle.loads(iso["conn"].recv_bytes())
+    shutil.rmtree(sandbox, ignore_errors=True)
+    return res
 
 
 def _tag(case):
@@ -457,6 +554,24 @@ def _history(tape, ctx, case, rig, probes, faults, allow_cancel):
             st, val, info = rig.call(twin, t_objs, "transform", lambda X_, kw_: case.call_transform(twin, X_, kw_), X, kw,
                                      role="twin", is_generator=is_gen)
             memo[b] = (st, val if st == "ok" else type(val).__name__, info, str(val)[:200] if st == "exc" else "")
+            # the same single call in a pristine interpreter state (see _start_pristine_server)
+            if st == "ok" and _st.get("iso") is not None and not is_gen and tape.chance("h.isolated_twin", 1, 2) \
+                    and not case.is_arpack_degenerate(cur_train):
+                res = _ask_isolated(case, cur_train, ids, fit_method, alt)
+                if res is not None:
+                    if res[0] == "harness":
+                        raise HarnessError("isolated twin: " + str(res[1]))
+                    probes.hit("isolated-twin-compared")
+                    if res[0] != "ok":
+                        raise Violation(f"C13|{tag}|single-call-outcome-depends-on-process-state",
+                                        f"transform of batch B{b} returned in this interpreter (history {[o['op'] for o in ops_log]}) "
+                                        f"but the same fit + single transform in a pristine interpreter state gave {res}", desc)
+                    mine = case.rows(val, len(ids))
+                    if len(mine) != len(res[1]) or not all(A.row_same(x, y, max(case.tol, 1e-9)) for x, y in zip(mine, res[1])):
+                        raise Violation(f"C13|{tag}|single-call-output-depends-on-process-state",
+                                        f"a pristine twin's single transform of batch B{b} in this interpreter (after the history "
+                                        f"{[o['op'] for o in ops_log]}) differs from the same fit + single transform performed in a "
+                                        f"pristine interpreter state: process-global state leaks between calls", desc)
         mst, mval, minfo, mtext = memo[b]
         fault = draw_fault("transform", minfo, len(ids))
         pst, pval, pinfo, fired = primary_call("transform", ids, "transform", fault, alt)
